@@ -89,6 +89,8 @@ func (s *g) inDomainVal(code string) gen.Val {
 		return gen.Int(int64(rapid.IntRange(0, 4).Draw(s.t, "dk")))
 	case "i":
 		return gen.Int(int64(rapid.IntRange(-2, 3).Draw(s.t, "dii")))
+	case "g":
+		return gen.Int(int64(rapid.SampledFrom([]int{2, 10, 3}).Draw(s.t, "dg")))
 	case "z":
 		v := rapid.IntRange(1, 9).Draw(s.t, "dz")
 		if s.pick("dzs", 2) == 0 {
@@ -136,6 +138,9 @@ func genFn(s *g) Case {
 			spec = specs[s.pick("spec", len(specs))]
 		}
 	}
+	if spec != nil && s.block[spec.key()] {
+		spec = nil // open finding on this documented signature: only the hostile class below, with another arity
+	}
 	if spec != nil {
 		codes := append([]string{}, spec.args...)
 		if spec.vmax > 0 {
@@ -159,6 +164,9 @@ func genFn(s *g) Case {
 	}
 	if max > n {
 		n += s.pick("arity", max-n+1)
+	}
+	for s.block["fn:"+f.name+"/"+itoa(n)] && n < f.min+3 {
+		n++
 	}
 	for i := 0; i < n; i++ {
 		c.Args = append(c.Args, hv[s.pick("hv", len(hv))])
@@ -189,7 +197,7 @@ func avoidOpenFnFindings(c *Case) {
 }
 
 func fnFeatures(c Case) []string {
-	var out []string
+	out := []string{"fn:" + c.Fn + "/" + itoa(len(c.Args))}
 	ints, floats := 0, 0
 	for _, a := range c.Args {
 		switch a.K {
@@ -245,7 +253,7 @@ func cleanArgs(spec *fnSpec, args []gen.Val) ([]rv, bool) {
 			return nil, false
 		}
 		switch codes[i] {
-		case "n", "p", "q", "z":
+		case "n", "p", "q", "z", "g":
 			if v.k != 'n' || a.K == "uint64" {
 				return nil, false
 			}
